@@ -35,6 +35,8 @@ def cases(ctx):
         for cin in (False, True):
             for cout in (False, True):
                 yield {"op": "logic", "block": "adder", "w": w, "cin": cin, "cout": cout, "src": "ADD"}
+    for w in (1, 2, 3):
+        yield {"op": "logic", "block": "adder", "w": w, "cin": False, "cout": True, "src": "ADD2"}
     for w in (list(range(1, 18)) + [32, 33]):
         yield {"op": "logic", "block": "mux", "w": w, "cin": False, "cout": False, "src": "MUX"}
     for w in ([1, 2, 3, 4, 5, 6, 7, 8, 9, 15, 16, 17, 31, 32, 33, 64] if q else list(range(1, 18)) + [31, 32, 33, 63, 64]):
@@ -119,6 +121,10 @@ def run_case(case, ctx):
                 ev["lint_exc"] = type(e).__name__
             ev["c"] = proj(c)
             ev["inames"], ev["vecs"] = vectors(c, case["block"], case["w"], ctx.rng("C13v", case["block"], case["w"]))
+            # the caller owns what a generator returns: wreck it, later blocks (popcount is built from adders) must not notice
+            for n in list(c.graph.nodes):
+                c.graph.nodes[n]["type"] = "nor"
+            c.graph.remove_edges_from(list(c.graph.edges)[::2])
         return ev
     if case["op"] == "clog2":
         evs = []
